@@ -225,3 +225,30 @@ def r6(ctx, R):
     gs = repo.func(SH, 'get_sorted')
     src = ast.unparse(gs)
     R.check('sort_stats(filter_stats(stats, **kwargs), sortby=sortby)' in src, 'get_sorted :: filter, then sort', f'{SH}:get_sorted', 'sort_stats(filter_stats(stats, **kwargs), sortby=sortby)', src[-90:])
+
+
+@rule('C14', 'C14.R7', 'filter_stats(recomputed=..): superseded restart generations are removed per (time, TYPE), only generations below the highest one of that type', floor=3)
+def r7(ctx, R):
+    repo = ctx.repo
+    fs = repo.func(SH, 'filter_stats')
+    w = f'{SH}:filter_stats'
+    R.fn(w)
+    # (a) highest generation per type
+    acc = [s for s in ast.walk(fs) if isinstance(s, ast.Assign) and isinstance(s.targets[0], ast.Subscript) and ast.unparse(s.targets[0].slice) == 'me.type' and 'num_restarts' in ast.unparse(s.value) and 'max(' in ast.unparse(s.value)]
+    R.check(len(acc) == 1, 'filter_stats :: the highest restart generation is tracked per record type', w, 'restarts[me.type] = max([restarts.get(me.type, 0), me.num_restarts])', [ast.unparse(s) for s in acc])
+    # (b) pops are restricted to that type and to strictly lower generations
+    inner = [c for c in ast.walk(fs) if isinstance(c, ast.Call) and ast.unparse(c.func) == 'filter_stats' and {'type', 'num_restarts'} <= {k.arg for k in c.keywords}]
+    ok = len(inner) == 1
+    detail = [ast.unparse(c) for c in inner]
+    if ok:
+        kw = {k.arg: ast.unparse(k.value) for k in inner[0].keywords}
+        comps = [g for lc in ast.walk(fs) if isinstance(lc, ast.ListComp) for g in lc.generators]
+        gen_i = [g for g in comps if ast.unparse(g.target) == kw['num_restarts']]
+        gen_t = [g for g in comps if isinstance(g.target, ast.Tuple) and ast.unparse(g.target.elts[0]) == kw['type']]
+        ok = len(gen_i) == 1 and len(gen_t) == 1 and ast.unparse(gen_t[0].iter).endswith('.items()') and ast.unparse(gen_i[0].iter) == f'range({ast.unparse(gen_t[0].target.elts[1])})'
+        detail += [ast.unparse(g.iter) for g in gen_i + gen_t]
+    R.check(ok, 'filter_stats :: removes records of generations 0..max-1 of the SAME type only', w, 'for type_, n in restarts.items(): for i in range(n): pop(filter_stats(.., type=type_, num_restarts=i))', detail)
+    # (c) only times that were restarted are touched
+    tr = [s for s in ast.walk(fs) if isinstance(s, ast.Assign) and ast.unparse(s.targets[0]) == 'times_restarted']
+    ok = len(tr) == 1 and ast.unparse(tr[0].value) == 'np.unique([me.time for me in result.keys() if me.num_restarts > 0])'
+    R.check(ok, 'filter_stats :: only times that carry a restarted record are revisited', w, 'np.unique([me.time for me in result.keys() if me.num_restarts > 0])', [ast.unparse(s.value) for s in tr])
